@@ -23,6 +23,39 @@ open TarpcModel.SimT
 @[simp] theorem violate_flushOpen (t : SimT) (w : String) : (t.violate w).flushOpen = t.flushOpen := rfl
 @[simp] theorem violate_isReadyNow (t : SimT) (w : String) : (t.violate w).isReadyNow = t.isReadyNow := rfl
 
+/-! #### fault countdown: `fires`, `letThrough` (only `faultSkip` changes) -/
+
+@[simp] theorem letThrough_cap (t : SimT) (a : Bool) : (t.letThrough a).cap = t.cap := by unfold letThrough; split <;> rfl
+@[simp] theorem letThrough_coupled (t : SimT) (a : Bool) : (t.letThrough a).coupled = t.coupled := by unfold letThrough; split <;> rfl
+@[simp] theorem letThrough_buffered (t : SimT) (a : Bool) : (t.letThrough a).buffered = t.buffered := by unfold letThrough; split <;> rfl
+@[simp] theorem letThrough_wire (t : SimT) (a : Bool) : (t.letThrough a).wire = t.wire := by unfold letThrough; split <;> rfl
+@[simp] theorem letThrough_sentLog (t : SimT) (a : Bool) : (t.letThrough a).sentLog = t.sentLog := by unfold letThrough; split <;> rfl
+@[simp] theorem letThrough_inbound (t : SimT) (a : Bool) : (t.letThrough a).inbound = t.inbound := by unfold letThrough; split <;> rfl
+@[simp] theorem letThrough_eof (t : SimT) (a : Bool) : (t.letThrough a).eof = t.eof := by unfold letThrough; split <;> rfl
+@[simp] theorem letThrough_readyOpen (t : SimT) (a : Bool) : (t.letThrough a).readyOpen = t.readyOpen := by unfold letThrough; split <;> rfl
+@[simp] theorem letThrough_flushOpen (t : SimT) (a : Bool) : (t.letThrough a).flushOpen = t.flushOpen := by unfold letThrough; split <;> rfl
+@[simp] theorem letThrough_faultReady (t : SimT) (a : Bool) : (t.letThrough a).faultReady = t.faultReady := by unfold letThrough; split <;> rfl
+@[simp] theorem letThrough_faultSend (t : SimT) (a : Bool) : (t.letThrough a).faultSend = t.faultSend := by unfold letThrough; split <;> rfl
+@[simp] theorem letThrough_faultFlush (t : SimT) (a : Bool) : (t.letThrough a).faultFlush = t.faultFlush := by unfold letThrough; split <;> rfl
+@[simp] theorem letThrough_faultClose (t : SimT) (a : Bool) : (t.letThrough a).faultClose = t.faultClose := by unfold letThrough; split <;> rfl
+@[simp] theorem letThrough_faultNext (t : SimT) (a : Bool) : (t.letThrough a).faultNext = t.faultNext := by unfold letThrough; split <;> rfl
+@[simp] theorem letThrough_selfWake (t : SimT) (a : Bool) : (t.letThrough a).selfWake = t.selfWake := by unfold letThrough; split <;> rfl
+@[simp] theorem letThrough_closed (t : SimT) (a : Bool) : (t.letThrough a).closed = t.closed := by unfold letThrough; split <;> rfl
+@[simp] theorem letThrough_failed (t : SimT) (a : Bool) : (t.letThrough a).failed = t.failed := by unfold letThrough; split <;> rfl
+@[simp] theorem letThrough_gotReady (t : SimT) (a : Bool) : (t.letThrough a).gotReady = t.gotReady := by unfold letThrough; split <;> rfl
+@[simp] theorem letThrough_readWaker (t : SimT) (a : Bool) : (t.letThrough a).readWaker = t.readWaker := by unfold letThrough; split <;> rfl
+@[simp] theorem letThrough_writeWaker (t : SimT) (a : Bool) : (t.letThrough a).writeWaker = t.writeWaker := by unfold letThrough; split <;> rfl
+@[simp] theorem letThrough_violations (t : SimT) (a : Bool) : (t.letThrough a).violations = t.violations := by unfold letThrough; split <;> rfl
+@[simp] theorem letThrough_isReadyNow (t : SimT) (a : Bool) : (t.letThrough a).isReadyNow = t.isReadyNow := by
+  unfold letThrough; split <;> rfl
+@[simp] theorem letThrough_false (t : SimT) : t.letThrough false = t := rfl
+@[simp] theorem fires_false (t : SimT) : t.fires false = false := rfl
+theorem fires_true (t : SimT) : t.fires true = (t.faultSkip == 0) := by simp [fires]
+@[simp] theorem violate_faultSkip (t : SimT) (w : String) : (t.violate w).faultSkip = t.faultSkip := rfl
+@[simp] theorem violate_selfWake (t : SimT) (w : String) : (t.violate w).selfWake = t.selfWake := rfl
+@[simp] theorem violate_faultNext (t : SimT) (w : String) : (t.violate w).faultNext = t.faultNext := rfl
+@[simp] theorem violate_fires (t : SimT) (w : String) (a : Bool) : (t.violate w).fires a = t.fires a := rfl
+
 /-- `useAfter` only records a violation. -/
 theorem useAfter_eq (t : SimT) (what : String) :
     t.useAfter what = t ∨
@@ -60,6 +93,13 @@ theorem useAfter_eq (t : SimT) (what : String) :
 @[simp] theorem useAfter_isReadyNow (t : SimT) (w : String) : (t.useAfter w).isReadyNow = t.isReadyNow := by
   rcases useAfter_eq t w with h | ⟨_, h⟩ | ⟨_, _, h⟩ <;> rw [h] <;> rfl
 
+@[simp] theorem useAfter_faultSkip (t : SimT) (w : String) : (t.useAfter w).faultSkip = t.faultSkip := by
+  rcases useAfter_eq t w with h | ⟨_, h⟩ | ⟨_, _, h⟩ <;> rw [h] <;> rfl
+@[simp] theorem useAfter_selfWake (t : SimT) (w : String) : (t.useAfter w).selfWake = t.selfWake := by
+  rcases useAfter_eq t w with h | ⟨_, h⟩ | ⟨_, _, h⟩ <;> rw [h] <;> rfl
+@[simp] theorem useAfter_fires (t : SimT) (w : String) (a : Bool) : (t.useAfter w).fires a = t.fires a := by
+  unfold fires; rw [useAfter_faultSkip]
+
 /-- The violations `useAfter what` may add. -/
 theorem useAfter_violations (t : SimT) (what : String) :
     (t.useAfter what).violations = t.violations ∨
@@ -95,38 +135,38 @@ theorem useAfter_adds (t : SimT) (what : String) :
 /-! #### `pollReady` -/
 
 theorem pollReady_closed (t : SimT) : t.pollReady.1.closed = t.closed := by
-  by_cases h1 : t.faultReady = true <;> by_cases h2 : t.isReadyNow = true <;> simp [pollReady, h1, h2]
+  by_cases h1 : t.faultReady = true <;> by_cases h0 : t.faultSkip = 0 <;> by_cases h2 : t.isReadyNow = true <;> simp [pollReady, fires, h0, h1, h2]
 
 theorem pollReady_failed (t : SimT) : t.pollReady.1.failed = (t.failed || t.pollReady.2.1 == .err) := by
-  by_cases h1 : t.faultReady = true <;> by_cases h2 : t.isReadyNow = true <;> simp [pollReady, h1, h2]
+  by_cases h1 : t.faultReady = true <;> by_cases h0 : t.faultSkip = 0 <;> by_cases h2 : t.isReadyNow = true <;> simp [pollReady, fires, h0, h1, h2]
 
 theorem pollReady_gotReady (t : SimT) (h : t.pollReady.2.1 = .ready) : t.pollReady.1.gotReady = true := by
-  by_cases h1 : t.faultReady = true <;> by_cases h2 : t.isReadyNow = true <;> simp [pollReady, h1, h2] at h ⊢
+  by_cases h1 : t.faultReady = true <;> by_cases h0 : t.faultSkip = 0 <;> by_cases h2 : t.isReadyNow = true <;> simp [pollReady, fires, h0, h1, h2] at h ⊢
 
 theorem pollReady_pending (t : SimT) (h : t.pollReady.2.1 = .pending) : t.pollReady.1.writeWaker = true := by
-  by_cases h1 : t.faultReady = true <;> by_cases h2 : t.isReadyNow = true <;> simp [pollReady, h1, h2] at h ⊢
+  by_cases h1 : t.faultReady = true <;> by_cases h0 : t.faultSkip = 0 <;> by_cases h2 : t.isReadyNow = true <;> simp [pollReady, fires, h0, h1, h2] at h ⊢
 
 theorem pollReady_woke (t : SimT) : t.pollReady.2.2 = false := by
-  by_cases h1 : t.faultReady = true <;> by_cases h2 : t.isReadyNow = true <;> simp [pollReady, h1, h2]
+  by_cases h1 : t.faultReady = true <;> by_cases h0 : t.faultSkip = 0 <;> by_cases h2 : t.isReadyNow = true <;> simp [pollReady, fires, h0, h1, h2]
 
 theorem pollReady_violations (t : SimT) : t.pollReady.1.violations = (t.useAfter "ready").violations := by
-  by_cases h1 : t.faultReady = true <;> by_cases h2 : t.isReadyNow = true <;> simp [pollReady, h1, h2]
+  by_cases h1 : t.faultReady = true <;> by_cases h0 : t.faultSkip = 0 <;> by_cases h2 : t.isReadyNow = true <;> simp [pollReady, fires, h0, h1, h2]
 
 theorem pollReady_buffered (t : SimT) : t.pollReady.1.buffered = t.buffered := by
-  by_cases h1 : t.faultReady = true <;> by_cases h2 : t.isReadyNow = true <;> simp [pollReady, h1, h2]
+  by_cases h1 : t.faultReady = true <;> by_cases h0 : t.faultSkip = 0 <;> by_cases h2 : t.isReadyNow = true <;> simp [pollReady, fires, h0, h1, h2]
 
 /-! #### `startSend` -/
 
 theorem startSend_closed (t : SimT) (m : Msg) : (t.startSend m).1.closed = t.closed := by
-  by_cases h1 : t.gotReady = true <;> by_cases h2 : t.faultSend = true <;> simp [startSend, h1, h2]
+  by_cases h1 : t.gotReady = true <;> by_cases h2 : t.faultSend = true <;> by_cases h0 : t.faultSkip = 0 <;> simp [startSend, fires, h0, h1, h2]
 theorem startSend_failed (t : SimT) (m : Msg) : (t.startSend m).1.failed = t.failed := by
-  by_cases h1 : t.gotReady = true <;> by_cases h2 : t.faultSend = true <;> simp [startSend, h1, h2]
+  by_cases h1 : t.gotReady = true <;> by_cases h2 : t.faultSend = true <;> by_cases h0 : t.faultSkip = 0 <;> simp [startSend, fires, h0, h1, h2]
 theorem startSend_gotReady (t : SimT) (m : Msg) : (t.startSend m).1.gotReady = false := by
-  by_cases h1 : t.gotReady = true <;> by_cases h2 : t.faultSend = true <;> simp [startSend, h1, h2]
+  by_cases h1 : t.gotReady = true <;> by_cases h2 : t.faultSend = true <;> by_cases h0 : t.faultSkip = 0 <;> simp [startSend, fires, h0, h1, h2]
 
 theorem startSend_violations (t : SimT) (m : Msg) : (t.startSend m).1.violations =
     if t.gotReady then (t.useAfter "send").violations else "send-without-ready" :: (t.useAfter "send").violations := by
-  by_cases h1 : t.gotReady = true <;> by_cases h2 : t.faultSend = true <;> simp [startSend, h1, h2]
+  by_cases h1 : t.gotReady = true <;> by_cases h2 : t.faultSend = true <;> by_cases h0 : t.faultSkip = 0 <;> simp [startSend, fires, h0, h1, h2]
 
 theorem startSend_adds (t : SimT) (m : Msg) :
     Adds t (t.startSend m).1 (fun w => (w = "send-after-failure" ∧ t.failed = true) ∨
@@ -152,7 +192,7 @@ theorem startSend_adds (t : SimT) (m : Msg) :
 
 theorem startSend_buffered (t : SimT) (m : Msg) :
     (t.startSend m).1.buffered = if (t.startSend m).2 then t.buffered ++ [m] else t.buffered := by
-  by_cases h1 : t.gotReady = true <;> by_cases h2 : t.faultSend = true <;> simp [startSend, h1, h2]
+  by_cases h1 : t.gotReady = true <;> by_cases h2 : t.faultSend = true <;> by_cases h0 : t.faultSkip = 0 <;> simp [startSend, fires, h0, h1, h2]
 
 /-! #### `drain`, `pollFlush`, `pollClose` -/
 
@@ -163,94 +203,94 @@ theorem drain_buffered (t : SimT) : t.drain.1.buffered = [] := by unfold drain; 
 theorem drain_gotReady (t : SimT) : t.drain.1.gotReady = t.gotReady := by unfold drain; simp only; split <;> rfl
 
 theorem pollFlush_closed (t : SimT) : t.pollFlush.1.closed = t.closed := by
-  by_cases h1 : t.faultFlush = true <;>
+  by_cases h1 : t.faultFlush = true <;> by_cases h0 : t.faultSkip = 0 <;>
     by_cases h2 : (t.coupled && !t.flushOpen && !t.buffered.isEmpty) = true <;>
-    simp [pollFlush, h1, h2, drain_closed]
+    simp [pollFlush, fires, h0, h1, h2, drain_closed]
 
 theorem pollFlush_failed (t : SimT) : t.pollFlush.1.failed = (t.failed || t.pollFlush.2.1 == .err) := by
-  by_cases h1 : t.faultFlush = true <;>
+  by_cases h1 : t.faultFlush = true <;> by_cases h0 : t.faultSkip = 0 <;>
     by_cases h2 : (t.coupled && !t.flushOpen && !t.buffered.isEmpty) = true <;>
-    simp [pollFlush, h1, h2, drain_failed]
+    simp [pollFlush, fires, h0, h1, h2, drain_failed]
 
 theorem pollFlush_violations (t : SimT) : t.pollFlush.1.violations = (t.useAfter "flush").violations := by
-  by_cases h1 : t.faultFlush = true <;>
+  by_cases h1 : t.faultFlush = true <;> by_cases h0 : t.faultSkip = 0 <;>
     by_cases h2 : (t.coupled && !t.flushOpen && !t.buffered.isEmpty) = true <;>
-    simp [pollFlush, h1, h2, drain_violations]
+    simp [pollFlush, fires, h0, h1, h2, drain_violations]
 
 /-- After a flush that did not fail, nothing is left buffered or the waker is registered. -/
 theorem pollFlush_flushed (t : SimT) :
     (t.pollFlush.2.1 = .pending → t.pollFlush.1.writeWaker = true) ∧
     (t.pollFlush.2.1 = .ready → t.pollFlush.1.buffered = []) := by
-  by_cases h1 : t.faultFlush = true <;>
+  by_cases h1 : t.faultFlush = true <;> by_cases h0 : t.faultSkip = 0 <;>
     by_cases h2 : (t.coupled && !t.flushOpen && !t.buffered.isEmpty) = true <;>
-    simp [pollFlush, h1, h2, drain_buffered]
+    simp [pollFlush, fires, h0, h1, h2, drain_buffered]
 
 theorem pollClose_closed (t : SimT) : t.pollClose.1.closed = (t.closed || t.pollClose.2.1 == .ready) := by
-  by_cases h1 : t.faultClose = true <;>
+  by_cases h1 : t.faultClose = true <;> by_cases h0 : t.faultSkip = 0 <;>
     by_cases h2 : (t.coupled && !t.flushOpen && !t.buffered.isEmpty) = true <;>
-    simp [pollClose, h1, h2]
+    simp [pollClose, fires, h0, h1, h2]
 
 theorem pollClose_failed (t : SimT) : t.pollClose.1.failed = (t.failed || t.pollClose.2.1 == .err) := by
-  by_cases h1 : t.faultClose = true <;>
+  by_cases h1 : t.faultClose = true <;> by_cases h0 : t.faultSkip = 0 <;>
     by_cases h2 : (t.coupled && !t.flushOpen && !t.buffered.isEmpty) = true <;>
-    simp [pollClose, h1, h2, drain_failed]
+    simp [pollClose, fires, h0, h1, h2, drain_failed]
 
 theorem pollClose_violations (t : SimT) : t.pollClose.1.violations = (t.useAfter "close").violations := by
-  by_cases h1 : t.faultClose = true <;>
+  by_cases h1 : t.faultClose = true <;> by_cases h0 : t.faultSkip = 0 <;>
     by_cases h2 : (t.coupled && !t.flushOpen && !t.buffered.isEmpty) = true <;>
-    simp [pollClose, h1, h2, drain_violations]
+    simp [pollClose, fires, h0, h1, h2, drain_violations]
 
 theorem pollClose_flushed (t : SimT) :
     (t.pollClose.2.1 = .pending → t.pollClose.1.writeWaker = true) ∧
     (t.pollClose.2.1 = .ready → t.pollClose.1.buffered = []) := by
-  by_cases h1 : t.faultClose = true <;>
+  by_cases h1 : t.faultClose = true <;> by_cases h0 : t.faultSkip = 0 <;>
     by_cases h2 : (t.coupled && !t.flushOpen && !t.buffered.isEmpty) = true <;>
-    simp [pollClose, h1, h2, drain_buffered]
+    simp [pollClose, fires, h0, h1, h2, drain_buffered]
 
 /-! #### `pollNext` -/
 
 theorem pollNext_closed (t : SimT) : t.pollNext.1.closed = t.closed := by
   unfold pollNext; split
   · rfl
-  · split
-    · rfl
-    · rfl
-    · split <;> rfl
+  · simp only; split
+    · simp
+    · simp
+    · split <;> simp
 theorem pollNext_failed (t : SimT) : t.pollNext.1.failed = t.failed := by
   unfold pollNext; split
   · rfl
-  · split
-    · rfl
-    · rfl
-    · split <;> rfl
+  · simp only; split
+    · simp
+    · simp
+    · split <;> simp
 theorem pollNext_violations (t : SimT) : t.pollNext.1.violations = t.violations := by
   unfold pollNext; split
   · rfl
-  · split
-    · rfl
-    · rfl
-    · split <;> rfl
+  · simp only; split
+    · simp
+    · simp
+    · split <;> simp
 theorem pollNext_gotReady (t : SimT) : t.pollNext.1.gotReady = t.gotReady := by
   unfold pollNext; split
   · rfl
-  · split
-    · rfl
-    · rfl
-    · split <;> rfl
+  · simp only; split
+    · simp
+    · simp
+    · split <;> simp
 theorem pollNext_buffered (t : SimT) : t.pollNext.1.buffered = t.buffered := by
   unfold pollNext; split
   · rfl
-  · split
-    · rfl
-    · rfl
-    · split <;> rfl
+  · simp only; split
+    · simp
+    · simp
+    · split <;> simp
 theorem pollNext_writeWaker (t : SimT) : t.pollNext.1.writeWaker = t.writeWaker := by
   unfold pollNext; split
   · rfl
-  · split
-    · rfl
-    · rfl
-    · split <;> rfl
+  · simp only; split
+    · simp
+    · simp
+    · split <;> simp
 
 /-! #### the write-side calls leave the read side alone -/
 
@@ -258,24 +298,24 @@ theorem useAfter_inbound (t : SimT) (w : String) : (t.useAfter w).inbound = t.in
   rcases useAfter_eq t w with h | ⟨_, h⟩ | ⟨_, _, h⟩ <;> rw [h] <;> rfl
 
 theorem pollReady_inbound (t : SimT) : t.pollReady.1.inbound = t.inbound := by
-  by_cases h1 : t.faultReady = true <;> by_cases h2 : t.isReadyNow = true <;>
-    simp [pollReady, h1, h2, useAfter_inbound]
+  by_cases h1 : t.faultReady = true <;> by_cases h0 : t.faultSkip = 0 <;> by_cases h2 : t.isReadyNow = true <;>
+    simp [pollReady, fires, h0, h1, h2, useAfter_inbound]
 
 theorem startSend_inbound (t : SimT) (m : Msg) : (t.startSend m).1.inbound = t.inbound := by
-  by_cases h1 : t.gotReady = true <;> by_cases h2 : t.faultSend = true <;>
-    simp [startSend, violate, h1, h2, useAfter_inbound]
+  by_cases h1 : t.gotReady = true <;> by_cases h2 : t.faultSend = true <;> by_cases h0 : t.faultSkip = 0 <;>
+    simp [startSend, fires, h0, violate, h1, h2, useAfter_inbound]
 
 theorem drain_inbound (t : SimT) : t.drain.1.inbound = t.inbound := by unfold drain; simp only; split <;> rfl
 
 theorem pollFlush_inbound (t : SimT) : t.pollFlush.1.inbound = t.inbound := by
-  by_cases h1 : t.faultFlush = true <;>
+  by_cases h1 : t.faultFlush = true <;> by_cases h0 : t.faultSkip = 0 <;>
     by_cases h2 : (t.coupled && !t.flushOpen && !t.buffered.isEmpty) = true <;>
-    simp [pollFlush, h1, h2, drain_inbound, useAfter_inbound]
+    simp [pollFlush, fires, h0, h1, h2, drain_inbound, useAfter_inbound]
 
 theorem pollClose_inbound (t : SimT) : t.pollClose.1.inbound = t.inbound := by
-  by_cases h1 : t.faultClose = true <;>
+  by_cases h1 : t.faultClose = true <;> by_cases h0 : t.faultSkip = 0 <;>
     by_cases h2 : (t.coupled && !t.flushOpen && !t.buffered.isEmpty) = true <;>
-    simp [pollClose, h1, h2, drain_inbound, useAfter_inbound]
+    simp [pollClose, fires, h0, h1, h2, drain_inbound, useAfter_inbound]
 
 end SimT
 
